@@ -273,6 +273,74 @@ def arith_sites(crate, fns):
     return out
 
 
+# std functions whose documentation has a "# Panics" section that depends on argument *values* (not on allocation
+# failure): a call of one of these is a panic site exactly like an explicit unwrap.  Keyed by last path segment; the
+# resolved callee must live in core / alloc / std.
+PARTIAL_STD = {
+    # integers
+    "ilog": "argument 0 or base < 2", "ilog2": "argument 0", "ilog10": "argument 0", "div_euclid": "divisor 0", "rem_euclid": "divisor 0",
+    "div_ceil": "divisor 0", "div_floor": "divisor 0", "next_multiple_of": "multiple 0", "isqrt": "negative argument",
+    "strict_add": "overflow", "strict_sub": "overflow", "strict_mul": "overflow",
+    # comparisons with an interval
+    "clamp": "min > max (or NaN bound)",
+    # slices / vectors / strings
+    "split_at": "mid > len", "split_at_mut": "mid > len", "copy_from_slice": "length mismatch", "clone_from_slice": "length mismatch",
+    "copy_within": "range out of bounds", "swap": "index out of bounds", "chunks": "chunk size 0", "chunks_exact": "chunk size 0",
+    "chunks_mut": "chunk size 0", "chunks_exact_mut": "chunk size 0", "windows": "size 0", "rotate_left": "mid > len",
+    "rotate_right": "k > len", "select_nth_unstable": "index >= len", "remove": "index out of bounds", "insert": "index > len",
+    "swap_remove": "index out of bounds", "drain": "range out of bounds", "split_off": "at > len", "split_first_chunk": None,
+    "as_chunks": "N = 0", "step_by": "step 0", "repeat": "capacity overflow",
+    # time
+    "from_secs_f64": "negative, NaN or too large", "from_secs_f32": "negative, NaN or too large", "duration_since": None,
+    "mul_f64": "negative or overflow", "div_f64": "negative or overflow",
+    # cells
+    "borrow": "already mutably borrowed", "borrow_mut": "already borrowed",
+}
+_PARTIAL_OWNERS = {"remove": ("Vec", "VecDeque", "String"), "insert": ("Vec", "VecDeque", "String"), "drain": ("Vec", "VecDeque", "String"),
+                   "swap": ("[T]", "Vec", "VecDeque"), "borrow": ("RefCell",), "borrow_mut": ("RefCell",), "repeat": ("[T]", "str"),
+                   "split_off": ("Vec", "VecDeque", "String"), "swap_remove": ("Vec",), "windows": ("[T]",), "step_by": ("Iterator",)}
+
+
+def partial_calls(crate, fns):
+    """calls of std functions that panic for some argument values (PARTIAL_STD), resolved callees only"""
+    out = []
+    for p, b in top_fns(crate, fns):
+        for n, _ in H.walk(b["body"]):
+            if n.get("k") not in ("Call", "MethodCall"):
+                continue
+            c = H.strip_generics(H.callee(n) or "")
+            if c.split("::")[0].lstrip("<") not in ("core", "alloc", "std"):
+                continue
+            name = c.split("::")[-1]
+            if name not in PARTIAL_STD or PARTIAL_STD[name] is None:
+                continue
+            own = _PARTIAL_OWNERS.get(name)
+            if own and not any(o in c for o in own):
+                continue
+            out.append({"fn": p, "kind": "partial:" + name, "line": n["sp"][2], "file": b["file"], "text": H.show(n)[:100],
+                        "why": PARTIAL_STD[name]})
+    return out
+
+
+def assert_sites(crate, fns):
+    """every compiler-inserted run-time check (MIR Assert terminator) of the given functions: index bounds, division /
+    remainder by zero, arithmetic overflow (debug builds), by kind"""
+    short = {"BoundsCheck": "index", "DivisionByZero": "div", "RemainderByZero": "rem"}
+    out = []
+    for p in sorted(fns):
+        j = crate.mir.get(p)
+        if j is None:
+            continue
+        for b in j["blocks"]:
+            t = b["term"]
+            if t["k"] != "Assert":
+                continue
+            msg = t["msg"]
+            kind = short.get(msg) or ("overflow:" + str(t.get("op")) if msg in ("Overflow", "OverflowNeg") else msg)
+            out.append({"fn": p, "kind": kind, "line": t["sp"][2], "file": j["file"], "text": kind})
+    return out
+
+
 def count_by(items, *keys):
     out = {}
     for it in items:
@@ -299,7 +367,7 @@ def compare_counts(ctx, rule, what, current_items, table, keys, floor_total=None
                 rule, len(its), k.split("|")[0], rev["count"] if rev else 0, "; ".join("L%d" % i["line"] for i in its[:6])))
             continue
         if rev is None:
-            ctx.fail(rule, k, where, "unreviewed %s in a decode-path function: %s" % (what, "; ".join(
+            ctx.fail(rule, k, where, "unreviewed %s in this function: %s" % (what, "; ".join(
                 "L%d %s" % (i["line"], i.get("text", i.get("cond", ""))[:70]) for i in its[:4])),
                 observed=len(its), expected=0)
         elif len(its) > rev["count"]:
